@@ -43,6 +43,7 @@ THEOREMS = [
     "CrCube.C13.welch_def",
     "CrCube.C13.welch_subtotal_nan",
     "CrCube.C13.welch_antisymmetric",
+    "CrCube.C13.overlap_path_iff_both_measures",
     "CrCube.C13.overlap_def",
     "CrCube.C13.overlap_antisymmetric",
     "CrCube.C13.overlap_self_zero",
@@ -54,7 +55,7 @@ RULE = ("2-D cubes and (one case in four) 3-D cubes with a cat / MR table dimens
         "compared column / as row, explicit order + hide + prune on both dimensions, every alpha shape (absent, float, "
         "1-3 element lists sorted or not, malformed) and only_larger flag; mean cubes (mean, stddev, "
         "valid_count_unweighted) for Welch, incl. exactly two columns, with the proportions test of the same cube read from the "
-        "same slice object before and after the means test; MR columns with overlap / valid_overlap measures; a case is non-trivial "
+        "same slice object before and after the means test; MR columns with overlap / valid_overlap measures (both, only one, none: only both together take the overlap path); a case is non-trivial "
         "when some displayed cell has a finite non-zero t; distinct = (kind, design, data) key")
 ASSUMPTIONS = [
     "counts / column bases handed to the model are the survey's tabulation (C01/C02; cross-checked here against the "
@@ -195,7 +196,9 @@ def gen_overlap_case(rng, table=False):
     if pw:
         tr["pairwise_indices"] = pw
     return {"type": "overlap", "vars": [v.to_json() for v in vars_], "survey": gen.survey_to_json(sv),
-            "wmode": "weighted" if weighted else "unit", "transforms": tr, "table": table}
+            "wmode": "weighted" if weighted else "unit", "transforms": tr, "table": table,
+            # which of the two overlap measures the response carries: only "both" switches to the overlap-corrected test
+            "ovm": rng.choice(["both"] * 5 + ["overlap"] * 2 + ["valid"] * 2 + ["none"])}
 
 
 def generate(ctx):
@@ -264,6 +267,15 @@ def _extract(vars_, flat, axes):
     return out
 
 
+def _kind(case):
+    """which test answers: a response with MR columns takes the overlap-corrected path only when it carries BOTH
+    the `overlap` and the `valid_overlap` measure (python twin of Pairwise.usesOverlapPath, cross-checked per case);
+    otherwise it is an ordinary count cube"""
+    if case["type"] == "overlap" and case.get("ovm", "both") != "both":
+        return "counts"
+    return case["type"]
+
+
 def _colbases_from_raw(vars_, flat, axes):
     """`column_bases` of the count extractor classes from a raw (integer) tensor"""
     shape = gen.raw_shape(vars_)
@@ -299,9 +311,13 @@ def _plan2d(case):
         plan["ops"].append(op)
 
     add("alpha", {"op": "pw_alpha", "arg": alpha_lean(_alpha_arg(case))})
+    if case["type"] == "overlap":
+        ovm = case.get("ovm", "both")
+        add("path", {"op": "pw_path", "cols_mr": axes[1].role == "mr", "overlap": ovm in ("both", "overlap"),
+                     "valid_overlap": ovm in ("both", "valid")})
     nr, nc = axes[0].n, axes[1].n
     ro, co = _full_order(nr, len(rsubs)), _full_order(nc, len(csubs))
-    if case["type"] == "counts":
+    if _kind(case) == "counts":
         wm = case["wmode"]
         wc, _, wcb = U.tabulate2(axes, survey, lambda w: w)
         _, _, ucb = U.tabulate2(axes, survey, lambda w: F(1))
@@ -342,7 +358,7 @@ def _plan2d(case):
         plan["resps"] = resps
         add("spec", {"op": "pw_spec", "resps": resps, "use_sq": wm == "squared",
                      "nfr": nr + len(rsubs), "nfc": nc + len(csubs)})
-    elif case["type"] == "means":
+    elif _kind(case) == "means":
         d = case["data"]
         mm = _extract(vars_, d["mean"], axes)
         sd = _extract(vars_, d["stddev"], axes)
@@ -591,8 +607,11 @@ def _mk_response(case, vars_, survey):
     meta = {"derived": True, "references": {}, "type": {"class": "numeric", "integer": not weighted,
             "missing_reasons": {"No Data": -1}, "missing_rules": {},
             "subvariables": [it["subvar_id"] for it in c.var.items]}}
-    res["measures"]["overlap"] = {"data": [gen.num(x) for x in _flatten(ov)], "metadata": meta, "n_missing": 0}
-    res["measures"]["valid_overlap"] = {"data": [gen.num(x) for x in _flatten(vov)], "metadata": meta, "n_missing": 0}
+    ovm = case.get("ovm", "both")
+    if ovm in ("both", "overlap"):
+        res["measures"]["overlap"] = {"data": [gen.num(x) for x in _flatten(ov)], "metadata": meta, "n_missing": 0}
+    if ovm in ("both", "valid"):
+        res["measures"]["valid_overlap"] = {"data": [gen.num(x) for x in _flatten(vov)], "metadata": meta, "n_missing": 0}
     return resp
 
 
@@ -678,8 +697,12 @@ def _eval_part(case, plan, louts, mkpart, ctx, where):
     nfr, nfc = nr + len(rsubs), nc + len(csubs)
     ctx.count("type:%s" % case["type"])
     ctx.count("design:%sx%s" % (axes[0].role, axes[1].role))
-    means = case["type"] == "means"
-    overlap = case["type"] == "overlap"
+    means = _kind(case) == "means"
+    overlap = _kind(case) == "overlap"
+    if case["type"] == "overlap":
+        if L("path")["overlap_path"] != overlap:
+            raise common.HarnessFault("python twin of usesOverlapPath disagrees with Lean: %r" % (case.get("ovm"),))
+        ctx.count("overlap-measures:%s" % case.get("ovm", "both"))
 
     # ---- alpha parsing (observable through which sets exist / which error is raised)
     la = L("alpha")
@@ -733,7 +756,7 @@ def _eval_part(case, plan, louts, mkpart, ctx, where):
         return i >= nr and diff_row[i - nr]
     def col_is_diff(j):
         return j >= nc and diff_col[j - nc]
-    if case["type"] == "counts":
+    if _kind(case) == "counts":
         sp = L("spec")
         sT = [[[_ev(x) for x in row] for row in mat] for mat in sp["t"]]
         sP = [[[_ev(x) for x in row] for row in mat] for mat in sp["p"]]
@@ -763,6 +786,8 @@ def _eval_part(case, plan, louts, mkpart, ctx, where):
                         i, j, mprops[i][j], mbases[i][j], oprop[i][j], obase[i][j]))
 
     wtag = case.get("wmode", "means")
+    if case["type"] == "overlap" and not overlap:
+        wtag += ".overlap-measures-%s" % case.get("ovm")       # ordinary test expected: not both overlap measures
     nontrivial = False
     t_name, p_name = ("pairwise_significance_means_t_stats", "pairwise_significance_means_p_vals") if means else \
                      ("pairwise_significance_t_stats", "pairwise_significance_p_vals")
@@ -870,7 +895,7 @@ def _eval_part(case, plan, louts, mkpart, ctx, where):
         EP.append(ep)
         SPEC_OK.append(ok)
         # sign flags of the model agree with the evaluated terms
-        if case["type"] == "counts":
+        if _kind(case) == "counts":
             tn = L("pw")["tneg"][a]
             for i in range(nfr):
                 for b in range(nfc):
@@ -1012,7 +1037,7 @@ def _eval_part(case, plan, louts, mkpart, ctx, where):
                                              "row %d col %d primary %r alt %r" % (ri, c, impl_idx[ri][c], impl_alt[ri][c])})
 
     # ---- secondary observation: legacy path (own locus)
-    if case["type"] == "counts" and axes[0].role == "cat" and axes[1].role == "cat" and sT is not None:
+    if _kind(case) == "counts" and axes[0].role == "cat" and axes[1].role == "cat" and sT is not None:
         leg = common.call_impl(lambda: [x.t_stats for x in part.pairwise_significance_tests])
         if isinstance(leg, list):
             for c in range(len(co)):
@@ -1038,7 +1063,7 @@ def _eval_part(case, plan, louts, mkpart, ctx, where):
 
     key = None
     if nontrivial:
-        if case["type"] == "means":
+        if _kind(case) == "means":
             key = ("means", tuple(case["data"]["mean"]), tuple(case["data"]["n"]))
         else:
             key = (case["type"], axes[0].role, axes[1].role, case.get("wmode"), json_key(case["survey"]))
